@@ -28,6 +28,10 @@ func runC01(c *Check, tier string) {
 	ruleR06c(c, "R01g")
 	// the resolver the key composer relies on must hand back every dependency
 	ruleResolverTotal(c, "R01h")
+	// what is restored is a copy: the cache entry a later build will be served stays untouched
+	ruleR07b(c, "R01i")
+	// every existing input file contributes its bytes
+	ruleR09f(c, "R01j")
 }
 
 // ruleResolverTotal (shared with C02/C15): a function of internal/dag that turns a node's dependency list
